@@ -248,7 +248,7 @@ void VfRun::oracle_read(Handle &H, const OpRes &r, bool is_int, const Rec &op) {
   }
   bool c20ctx = H.hr_touched; bool lin = H.linear && !H.hr_touched;
   auto P = [&]() -> std::initializer_list<const char *> {
-    static const std::initializer_list<const char *> a = {"C20"}, b = {"C07", "C09", "C10", "C12", "C17"}, c = {"C07", "C12", "C17", "C08"}, d = {"C10"};
+    static const std::initializer_list<const char *> a = {"C20", "C17"}, b = {"C07", "C09", "C10", "C12", "C17"}, c = {"C07", "C12", "C17", "C08"}, d = {"C10", "C17"};
     if (!H.seekable) return c20ctx ? a : d;
     if (c20ctx) return a; return lin ? b : c;
   };
